@@ -9,6 +9,7 @@ import (
 	"fmt"
 	"math/rand"
 	"sort"
+	"strings"
 	"time"
 
 	"0chain.net/chaincore/block"
@@ -209,7 +210,8 @@ func (d *drv) txn(steps []string) {
 	}
 	vf := violFields(alt)
 	d.rc.Emit(rec.M{"ev": "Validate", "kind": "txn", "path": "submit", "steps": steps, "alt": sorted(alt), "accepted": accepted,
-		"hash_changed": t.ComputeHash() != origHash, "why": why, "viol_fields": vf, "unbound": unboundFields(steps, "txn"), "ttype": t.TransactionType},
+		"hash_changed": t.ComputeHash() != origHash, "why": why, "viol_fields": vf, "unbound": unboundFields(steps, "txn"), "ttype": t.TransactionType,
+		"ntx": 0, "dup_n": 0, "dup_i": 0},
 		fmt.Sprintf("txn/submit/%v/%v", steps, accepted), accepted)
 
 	// the block path: the same object inside a block received by a verifier (miner.ValidateTransactions:
@@ -238,7 +240,8 @@ func (d *drv) txn(steps []string) {
 		bwhy = bwhy[:80]
 	}
 	d.rc.Emit(rec.M{"ev": "Validate", "kind": "txn", "path": "block", "steps": steps, "alt": sorted(alt), "accepted": baccepted,
-		"hash_changed": t.ComputeHash() != origHash, "why": bwhy, "viol_fields": vf, "unbound": unboundFields(steps, "txn"), "ttype": t.TransactionType},
+		"hash_changed": t.ComputeHash() != origHash, "why": bwhy, "viol_fields": vf, "unbound": unboundFields(steps, "txn"), "ttype": t.TransactionType,
+		"ntx": 0, "dup_n": 0, "dup_i": 0},
 		fmt.Sprintf("txn/block/%v/%v", steps, baccepted), baccepted)
 }
 
@@ -289,10 +292,15 @@ func unboundFields(steps []string, kind string) string {
 			}
 		case "BreakSig":
 			sigBroken = true
-		case "Duplicate":
-			dup = true
 		default:
-			alt[st] = true
+			if n, i, ok := dupShape(st); ok {
+				dup = true
+				if !merkleNeutral(n, i) {
+					alt["txns"] = true
+				}
+			} else {
+				alt[st] = true
+			}
 		}
 	}
 	diff := map[string]bool{}
@@ -332,15 +340,31 @@ func violFields(alt map[string]bool) string {
 
 // ---------------------------------------------------------------- C29
 
-func (d *drv) genuineBlock() *block.Block {
+// dupShape parses the step name of Binding!Duplicate(n, i) ("Duplicate:n:i": the block carries n transactions
+// and the i-th one is appended once more).
+func dupShape(st string) (n, i int, ok bool) {
+	if !strings.HasPrefix(st, "Duplicate:") {
+		return 0, 0, false
+	}
+	if _, err := fmt.Sscanf(st, "Duplicate:%d:%d", &n, &i); err != nil || n < 1 || i < 1 || i > n {
+		rec.Fatal("bad duplicate step %q", st)
+	}
+	return n, i, true
+}
+
+// merkleNeutral = Binding!MerkleNeutral: the Merkle tree pads a level of odd length with its last node, so the
+// last transaction of an odd-sized block appended once more gives the same transaction and receipt roots.
+func merkleNeutral(n, i int) bool { return i == n && n%2 == 1 }
+
+// genuineBlock: a block of ntx transactions, generated and signed by a registered miner.
+func (d *drv) genuineBlock(ntx int) *block.Block {
 	w := d.w
 	b := block.NewBlock(datastore.ToKey(w.Chain.GetKey()), int64(10+d.r.Intn(1000)))
 	b.MinerID = w.Miners[0].ID
 	b.PrevHash = encryption.Hash(fmt.Sprintf("prev-%d", d.r.Int63()))
 	b.CreationDate = common.Now()
 	b.SetRoundRandomSeed(d.r.Int63())
-	n := 2 + d.r.Intn(2)
-	for i := 0; i < n; i++ {
+	for i := 0; i < ntx; i++ {
 		t, _, _ := d.genuineTxn()
 		t.TransactionOutput = fmt.Sprintf("out-%d", d.r.Intn(100))
 		t.OutputHash = t.ComputeOutputHash()
@@ -365,11 +389,41 @@ func (d *drv) genuineBlock() *block.Block {
 
 func (d *drv) block(steps []string) {
 	w := d.w
-	b := d.genuineBlock()
+	// the shape of the genuine block: the number of transactions it carries is the environment's choice (1, 2, 3+:
+	// the Merkle root of the transactions treats a single leaf and odd levels specially).  A behaviour that repeats a
+	// transaction (Duplicate:n:i) fixes it: the block must carry n transactions at that moment, so the genuine block
+	// has n minus what a "txns" tamper step appended before; behaviours without a repetition get 1..4 at random.
+	appendTxn := d.r.Intn(2) == 1 // whether the "txns" tamper step appends a transaction or replaces one
+	ntx, dupN, dupI := 1+d.r.Intn(4), 0, 0
+	for k, st := range steps {
+		if n, i, ok := dupShape(st); ok {
+			dupN, dupI, ntx = n, i, n
+			for _, before := range steps[:k] {
+				if before == "txns" && appendTxn {
+					if n == 1 {
+						appendTxn = false
+					} else {
+						ntx = n - 1
+					}
+				}
+			}
+		}
+	}
+	b := d.genuineBlock(ntx)
 	origHash := b.Hash
 	attacker := w.Miners[1]
 	alt := map[string]bool{}
 	for _, st := range steps {
+		if n, i, ok := dupShape(st); ok {
+			if len(b.Txns) != n {
+				rec.Fatal("binding: block carries %d transactions at %s", len(b.Txns), st)
+			}
+			b.Txns = append(b.Txns, b.Txns[i-1])
+			if !merkleNeutral(n, i) {
+				alt["txns"] = true
+			}
+			continue
+		}
 		switch st {
 		case "parent":
 			b.PrevHash = encryption.Hash(fmt.Sprintf("other-prev-%d", d.r.Int63()))
@@ -380,10 +434,10 @@ func (d *drv) block(steps []string) {
 		case "txns":
 			t, _, _ := d.genuineTxn()
 			t.OutputHash = t.ComputeOutputHash()
-			if d.r.Intn(2) == 0 {
-				b.Txns[d.r.Intn(len(b.Txns))] = t
-			} else {
+			if appendTxn {
 				b.Txns = append(b.Txns, t)
+			} else {
+				b.Txns[d.r.Intn(len(b.Txns))] = t
 			}
 		case "outputs":
 			t := b.Txns[d.r.Intn(len(b.Txns))]
@@ -407,13 +461,11 @@ func (d *drv) block(steps []string) {
 			b.Signature = attacker.Sign(b.Hash)
 		case "BreakSig":
 			b.Signature = flipHex(b.Signature, d.r)
-		case "Duplicate":
-			b.Txns = append(b.Txns, b.Txns[d.r.Intn(len(b.Txns))])
 		default:
 			rec.Fatal("unknown block step %q", st)
 		}
 		switch st {
-		case "Rehash", "Resign", "BreakSig", "Duplicate":
+		case "Rehash", "Resign", "BreakSig":
 		case "SetSender":
 			alt["sender"] = true
 		default:
@@ -436,7 +488,8 @@ func (d *drv) block(steps []string) {
 		why = why[:80]
 	}
 	d.rc.Emit(rec.M{"ev": "Validate", "kind": "block", "path": "receive", "steps": steps, "alt": sorted(alt), "accepted": accepted,
-		"hash_changed": b.ComputeHash() != origHash, "why": why, "viol_fields": violFields(alt), "unbound": unboundFields(steps, "block"), "ttype": 0},
+		"hash_changed": b.ComputeHash() != origHash, "why": why, "viol_fields": violFields(alt), "unbound": unboundFields(steps, "block"), "ttype": 0,
+		"ntx": len(b.Txns), "dup_n": dupN, "dup_i": dupI},
 		fmt.Sprintf("block/%v/%v", steps, accepted), accepted)
 }
 
